@@ -17,7 +17,7 @@ from .. import common as C
 SUMMARY_FIELDS = ["id", "prop", "desc", "corner", "expect", "cls", "direct", "why",
                   "f1", "f2", "f3", "r1", "r2", "r3", "ckey", "chash", "csalt", "session",
                   "skey", "skeyid", "ssalt", "shash1", "encseen", "encopened", "encpkt", "fault", "errtext", "rejected",
-                  "postreq", "after_encrypted", "postplain", "hang_retried", "storecalls", "afterchatter", "plainchatter", "encnotification", "latestep", "redial"]
+                  "postreq", "after_encrypted", "postplain", "hang_retried", "storecalls", "afterchatter", "plainchatter", "encnotification", "latestep", "redial", "storefail"]
 
 CLASS_OF_VERDICT = {"success": "ok", "failed": "err", "panicked": "panic", "stalled": "hang"}
 
@@ -223,6 +223,10 @@ def run(ctx, prop, props_file, rule, distribution_note):
             C.violation(ctx, key, "%s: %s" % (r["desc"], r["why"]),
                         replay_obj(prop, c, r, "expect=%s" % r["expect"], "%s: %s" % (r["cls"], r["why"]),
                                    "direct (independent conformant / single-fault server harness/root/hsserver)"))
+            continue
+        if r["direct"] == "pass-direct-only":
+            # a fault outside the model (the session storage fails): the direct oracle alone decides
+            stats["exchanges_whose_session_could_not_be_stored"] = stats.get("exchanges_whose_session_could_not_be_stored", 0) + 1
             continue
         diffs = compare(prop, r, model.get(r["id"]))
         if diffs:
